@@ -214,10 +214,12 @@ Definition enc_abs (s : Gen.SszEncoder) : enc_state :=
   {| e_offset := Gen.SszEncoder_offset s; e_buf := Gen.SszEncoder_buf s; e_var := Gen.SszEncoder_variable_bytes s |}.
 
 (** [append_parameterized]: equal to the model whenever the offset written fits a [usize]
-    (the model states encoder facts for encodings shorter than 2^32 bytes). *)
-Theorem gen_encoder_append_eq s f app :
+    (the model states encoder facts for encodings shorter than 2^32 bytes) and the item's
+    [ssz_append] closure returns ([Fn(&mut Vec<u8>)] closures are fallible in the translation: an
+    item encoder that panics is a panic of the whole call). *)
+Theorem gen_encoder_append_eq s f (app : bytes -> bytes) :
   Gen.SszEncoder_offset s + len (Gen.SszEncoder_variable_bytes s) <= usize_max ->
-  omap enc_abs (Gen.encoder_append s f app) = Ok (enc_append (enc_abs s) f app).
+  omap enc_abs (Gen.encoder_append s f (fun b => Ok (app b))) = Ok (enc_append (enc_abs s) f app).
 Proof.
   intro H. unfold Gen.encoder_append, enc_append. destruct s as [off buf var].
   cbn [Gen.SszEncoder_offset Gen.SszEncoder_buf Gen.SszEncoder_variable_bytes enc_abs e_offset e_buf e_var] in *.
@@ -225,6 +227,18 @@ Proof.
   unfold usize_add. rewrite llen_len.
   destruct (off + len var <=? usize_max) eqn:E; [|apply N.leb_gt in E; lia].
   cbn [bind]. rewrite gen_encode_length_eq. reflexivity.
+Qed.
+
+(** a panicking or failing item encoder is propagated, in either branch *)
+Theorem gen_encoder_append_item_fails s f (app : bytes -> outcome bytes) :
+  (forall b, app b = Panic) -> Gen.encoder_append s f app = Panic \/ (f = false /\ Gen.SszEncoder_offset s + len (Gen.SszEncoder_variable_bytes s) > usize_max).
+Proof.
+  intro H. unfold Gen.encoder_append. destruct f.
+  - left. rewrite H. reflexivity.
+  - unfold usize_add. rewrite llen_len.
+    destruct (Gen.SszEncoder_offset s + len (Gen.SszEncoder_variable_bytes s) <=? usize_max) eqn:E.
+    + left. cbn [bind]. rewrite gen_encode_length_eq. cbn [bind]. rewrite H. reflexivity.
+    + right. split; [reflexivity|]. apply N.leb_gt in E. lia.
 Qed.
 
 (** [finalize]: the buffer is [buf ++ variable_bytes]. *)
